@@ -15,10 +15,11 @@ def profile(big=False, cat=False, exclude=False, family='2d'):
         # padding through the layer's own `padding` argument
         return ng.Profile(family='1d', pads=('same', 'same', 'none'), standalone_bn=False, bn=False,
                           exclude=exclude, reuse=False, multi_input=False, cat=cat, cat_t=False,
-                          max_blocks=6 if big else 4, min_blocks=1, max_c=6, kmax=5, dil=(1, 2))
+                          max_blocks=6 if big else 4, min_blocks=1, max_c=6, kmax=5, dil=(1, 2),
+                          fixtures=True)
     return ng.Profile(family='2d', standalone_bn=False, exclude=exclude, reuse=False,
                       multi_input=False, cat=cat, cat_t=False, max_blocks=6 if big else 4,
-                      min_blocks=1, max_c=6)
+                      min_blocks=1, max_c=6, fixtures=True)
 
 
 precisions = st.lists(st.sampled_from([2, 4, 8]), min_size=1, max_size=3, unique=True)
